@@ -14,8 +14,9 @@ class Fork:
     """replays a list of outcomes for the ordering comparisons the property's own policy declines; every outcome taken becomes an
     assumption of that run's obligations (so both sides of  `if a > b:`  in the executed code are decided, each under its condition)"""
 
-    def __init__(self, decisions):
+    def __init__(self, decisions, default=None):
         self.decisions, self.i, self.constraints, self.trace, self.memo = list(decisions), 0, [], [], {}
+        self.default = default      # outcome of every comparison beyond `decisions` (None: ask for a decision)
 
     def decide(self, kind, lhs, rhs):
         import z3, traceback
@@ -27,12 +28,17 @@ class Fork:
         if less in self.memo:
             return self.memo[less]
         if self.i >= len(self.decisions):
-            raise NeedDecision()
-        ans = self.decisions[self.i]
+            if self.default is None:
+                raise NeedDecision()
+            ans = self.default
+        else:
+            ans = self.decisions[self.i]
         self.i += 1
         self.memo[less] = ans
         c = {'lt': a < b, 'le': a <= b, 'gt': a > b, 'ge': a >= b}[kind]
         self.constraints.append(c if ans else z3.Not(c))
+        if len(self.trace) >= 40:
+            return ans
         fr = [f for f in traceback.extract_stack(limit=25) if '/compmech/' in f.filename]
         self.trace.append('%s %s %s -> %s @ %s' % (lhs, kind, rhs, ans, ('%s:%d' % (fr[-1].filename.split('/compmech/', 1)[-1], fr[-1].lineno)) if fr else '?'))
         return ans
@@ -51,6 +57,8 @@ def job(arg):
             res = job1(arg, Sym.FORK)
         except NeedDecision:
             pending += [dec + [False], dec + [True]]
+            if len(dec) >= 8:
+                break               # an entry-wise test over a whole array: not to be taken apart one comparison at a time (see below)
             continue
         finally:
             fork, Sym.FORK = Sym.FORK, None
@@ -71,10 +79,82 @@ def job(arg):
     if merged is not None and pending and merged.get('sat'):
         merged.setdefault('extra', {})['ordering_branches_not_run'] = len(pending)
         return merged           # a failing branch was found: it is replayed and reported; the branches not run stay undecided
+    if pending:
+        # too many comparisons to take apart one by one (an entry-wise tolerance test over a whole matrix): the two uniform outcomes
+        # (every comparison true / every comparison false) are run; a failing one is replayed and reported, otherwise the
+        # configuration stays undecided (reported as an error below, never as a pass)
+        uni = uniform_runs(lambda: job1(arg, Sym.FORK))
+        if uni is not None:
+            return uni
     if merged is None or pending:
         cfg = arg[1]
         return {'group': cfg['group'], 'n': 0, 'unsat': 0, 'sat': [], 'unknown': [], 'solver_s': 0, 'queries': 0, 'samples': [], 'extra': {},
                 'error': 'RuntimeError: more than 16 runs / 150 s needed to decide the ordering comparisons of this configuration', 'cfg': cfg}
+    return merged
+
+
+def uniform_runs(run1):
+    for default in (False, True):
+        Sym.FORK = Fork([], default=default)
+        try:
+            res = run1()
+        except BaseException as e:
+            if isinstance(e, (KeyboardInterrupt, SystemExit)):
+                raise
+            continue
+        finally:
+            fork, Sym.FORK = Sym.FORK, None
+        if res.get('sat') and not (res.get('error') or res.get('oob') or res.get('memview')):
+            for s_ in res['sat']:
+                s_['branch'] = fork.trace[:12] + ['... every ordering comparison of the run decided as %s (%d comparisons)' % (default, fork.i)]
+            res.setdefault('extra', {})['ordering_branches_not_run'] = 'all mixed outcomes'
+            return res
+    return None
+
+
+def forked(fn, cfg, max_runs=16, budget_s=150):
+    """kprop.job's fork loop for a property's own job function fn(cfg) -> result dict (the function adds Sym.FORK.constraints to its
+    assumptions): one run per outcome of the ordering comparisons no policy decides, results merged"""
+    pending, merged, runs = [[]], None, 0
+    t_job = time.time()
+    while pending and runs < max_runs and time.time() - t_job < budget_s:
+        dec = pending.pop()
+        runs += 1
+        Sym.FORK = Fork(dec)
+        try:
+            res = fn(cfg)
+        except NeedDecision:
+            pending += [dec + [False], dec + [True]]
+            if len(dec) >= 8:
+                break               # an entry-wise test over a whole array: not to be taken apart one comparison at a time (see below)
+            continue
+        finally:
+            fork, Sym.FORK = Sym.FORK, None
+        if fork.trace:
+            res.setdefault('extra', {}).setdefault('ordering_branches', []).append(fork.trace)
+            for s_ in res.get('sat', []):
+                s_['branch'] = fork.trace
+        if merged is None:
+            merged = res
+        elif res.get('error'):
+            merged = res if not merged.get('error') else merged
+        elif not merged.get('error'):
+            for k in ('n', 'unsat', 'solver_s', 'queries'):
+                merged[k] = merged.get(k, 0) + res.get(k, 0)
+            for k in ('sat', 'unknown'):
+                merged[k] = merged.get(k, []) + res.get(k, [])
+            merged.setdefault('extra', {}).setdefault('ordering_branches', []).extend(res.get('extra', {}).get('ordering_branches', []))
+        if merged.get('sat'):
+            if pending:
+                merged.setdefault('extra', {})['ordering_branches_not_run'] = len(pending)
+            return merged
+    if pending:
+        uni = uniform_runs(lambda: fn(cfg))
+        if uni is not None:
+            return uni
+    if merged is None or pending:
+        return {'group': cfg['group'], 'n': 0, 'unsat': 0, 'sat': [], 'unknown': [], 'solver_s': 0, 'queries': 0, 'samples': [], 'extra': {},
+                'error': 'RuntimeError: more than %d runs / %d s needed to decide the ordering comparisons of this configuration' % (max_runs, budget_s), 'cfg': cfg}
     return merged
 
 
@@ -141,6 +221,10 @@ def locus_job(build, cfg, t0):
         Sym.ALIAS = {}
     subs = []
     for vn, to in alias.items():
+        if to.startswith('lin:'):
+            tt, cc = Sym.parse_lin(to)
+            subs.append((z3.Real(vn), z3.Sum([z3.RealVal(str(c)) * z3.Real(n) for c, n in tt] + [z3.RealVal(str(cc))])))
+            continue
         try:
             subs.append((z3.Real(vn), z3.RealVal(str(Fraction(to)))))
         except (ValueError, ZeroDivisionError):
@@ -162,7 +246,14 @@ def locus_job(build, cfg, t0):
     return res
 
 
-def explore_loci(modname, results, run=None, admissible=None, max_new=24, max_depth=3):
+def _weight(cfg):
+    w = 0
+    for k in ('mn1', 'mn2', 'mn'):
+        w += sum(int(x) for x in (cfg.get(k) or ()) if isinstance(x, int))
+    return w + int(cfg.get('m') or 0) + int(cfg.get('n') or 0)
+
+
+def explore_loci(modname, results, run=None, admissible=None, max_new=24, max_depth=3, prefer_largest=False, per_config=False):
     """further passes over the equality loci: wherever the executed package code compared a symbolic input with another symbolic
     input or with a number (== / !=), the first pass took the generic branch (not equal).  Every such locus is explored with the
     equality imposed (same symbol / that number), one follow-up per (locus, group); the comparisons met ON a locus are explored in
@@ -191,6 +282,28 @@ def explore_loci(modname, results, run=None, admissible=None, max_new=24, max_de
                 elif a and b and {a[0], b[0]} == {'prod', 'num'} and Fraction((a if a[0] == 'num' else b)[1]) == 0:
                     # a product of symbols compared with zero: one locus per factor that is an input (harness atoms are generic values)
                     pairs = [(nm, '0') for nm in (a if a[0] == 'prod' else b)[1].split(',') if '#' not in nm and '!' not in nm]
+                elif a and b and 'lin' in (a[0], b[0]) and a[0] in ('var', 'num', 'lin') and b[0] in ('var', 'num', 'lin'):
+                    # a linear combination of inputs compared with an input / a number / another combination (`Nxx + Nyy + Nxy != 0`):
+                    # the locus is imposed by pinning one input to the combination of the others
+                    def _lin(x):
+                        if x[0] == 'var':
+                            return {x[1]: Fraction(1)}, Fraction(0)
+                        if x[0] == 'num':
+                            return {}, Fraction(x[1])
+                        tt, cc = Sym.parse_lin(x[1])
+                        return {n: c for c, n in tt}, cc
+                    (ta, ca), (tb, cb) = _lin(a), _lin(b)
+                    diff = dict(ta)
+                    for n_, c_ in tb.items():
+                        diff[n_] = diff.get(n_, 0) - c_
+                    diff = {n_: c_ for n_, c_ in diff.items() if c_ != 0}
+                    free = [n_ for n_ in sorted(diff) if n_ not in base_alias and '#' not in n_ and '!' not in n_]
+                    if free:
+                        pv = free[-1]
+                        cp = diff[pv]
+                        others = {n_: -c_ / cp for n_, c_ in diff.items() if n_ != pv}
+                        k0_ = -(ca - cb) / cp
+                        pairs = [(pv, Sym.format_lin(others, k0_) if others else str(k0_))]
                 if not pairs:
                     if len(unexplored) < 20 and not any(u['where'] == where for u in unexplored):
                         unexplored.append({'where': where, 'comparison': [a, b], 'configuration': cfg0['group']})
@@ -205,7 +318,15 @@ def explore_loci(modname, results, run=None, admissible=None, max_new=24, max_de
                     alias = dict(base_alias)
                     alias[vn] = to
                     key = (cfg0.get('base_group', cfg0['group']), cfg0.get('variant', cfg0.get('rel')), tuple(sorted(alias.items())))
+                    if per_config:
+                        key = key + (str(cfg0.get('mn1')), str(cfg0.get('mn2')), str(cfg0.get('mn')), cfg0.get('m'), cfg0.get('n'))
                     if key in seen:
+                        if prefer_largest:
+                            # one follow-up per (locus, group): on the configuration of the group with the most series terms
+                            lst_ = by_locus.get((vn, to, where), [])
+                            for i_, (c_, al_) in enumerate(lst_):
+                                if c_.get('base_group', c_['group']) == cfg0.get('base_group', cfg0['group']) and al_ == alias and _weight(cfg0) > _weight(c_):
+                                    lst_[i_] = (cfg0, alias)
                         continue
                     seen.add(key)
                     by_locus.setdefault((vn, to, where), []).append((cfg0, alias))
